@@ -160,6 +160,16 @@ files = {
     "hold 2", "release 2", "hold 2", log("h3", 0, "after an empty round"), "release 2",
     "mode 2 fail", log("h2", 0, "after the sink began to fail"), "mode 2 ok", log("h2", 0, "and recovered"),
  ],
+ "log.newlines.ops": [
+    "# what 'one line' means: string VALUES are quoted (a line feed becomes \\n), but the message, keys, group names and",
+    "# the text of non-string values (errors, Stringers) are written as they are: a line feed in them starts a new line",
+    "reset", "new h0 1 0 0",
+    log("h0", 0, "two\nlines", s("k", "v")),
+    log("h0", 0, "m", " ".join(["l", hx("s"), hx('"a\\nb"'), "s", hx("a\nb")])),
+    log("h0", 0, "m", " ".join(["l", hx("err"), hx("first\nsecond"), "x", hx("first\nsecond")])),
+    log("h0", 0, "m", " ".join(["l", hx("k\nl"), hx("1"), "i", "1"])),
+    "wg h1 h0 " + hx("g\nh"), log("h1", 0, "m", i("n", 1)),
+ ],
  "log.sentinel.ops": [
     "# a child that returns one long-lived *errs.Error: Handle's aggregate must be built beside it, never into it;",
     "# later records report only their own failures (defect shape: first failure kept as-is, later ones appended to it)",
